@@ -70,7 +70,7 @@ func LRHuntGen() *rapid.Generator[*Grammar] {
 		var ref func(depth int) *Expr
 		ref = func(depth int) *Expr {
 			r := Ref(Pick(t, names, "refname"))
-			switch U(t, 12, "refwrap") {
+			switch U(t, 15, "refwrap") {
 			case 0:
 				return Opt(r)
 			case 1:
@@ -94,6 +94,15 @@ func LRHuntGen() *rapid.Generator[*Grammar] {
 				if depth < 2 {
 					return Star(Seq(ref(depth+1), term()))
 				}
+			case 10:
+				// the guarded expression throws before it consumes anything: the recovery
+				// expression runs at the offset at which the operator was entered
+				return Recover(Choice(term(), Throw("F1")), r, "F1")
+			case 11:
+				return Recover(Seq(Choice(term(), Throw("F1")), term()), r, "F1")
+			case 12:
+				// the throw comes from a rule called by the guarded expression
+				return Recover(Seq(Ref(Pick(t, names, "guardedref")), term()), r, "F1")
 			}
 			return r
 		}
